@@ -163,6 +163,9 @@ func classes(sc *scen.Scenario, res *scen.Result, intended scen.Corner) []string
 			break
 		}
 	}
+	if sc.FirstDialRefused {
+		cls = append(cls, "second-attempt-after-refused-connection")
+	}
 	if sc.HS.PQPad8 {
 		cls = append(cls, "pq:padded-to-8")
 	}
@@ -283,6 +286,9 @@ func TestC06(t *testing.T) {
 				// other clients of the same process exchange keys at the same time (small factorisations: the point is the overlap)
 				sc.Companions = rapid.SampledFrom([]int{3, 7, 15}).Draw(t, "companions")
 				sc.HS.P, sc.HS.Q = 1000003, 1000033
+			}
+			if sc.Companions == 0 && rapid.IntRange(0, 3).Draw(t, "server-down-first") == 0 {
+				sc.FirstDialRefused = true
 			}
 			if err := evaluate(sc, scen.Corner{}); err != nil {
 				if strings.HasPrefix(err.Error(), "INFRA:") {
